@@ -295,7 +295,7 @@ func c12One(c *core.Ctx, r *core.Result, w *World, era drive.Era, sc c12Scenario
 		if e != nil {
 			return
 		}
-		cur := d.Node.Sync.Synced
+		cur := v.Synced
 		for hh, rows := range prev {
 			if hh >= cur {
 				continue
